@@ -110,8 +110,11 @@ def classify(div, ctx=None):
             props |= {"C02", "C08"}
             if isinstance(exp, dict) and isinstance(obs, dict) and exp.get("ok") and obs.get("ok"):
                 props |= {"C16"}
-            if name == "write" and ctx.get("declared"):
-                pass
+            # a keyed write that REPORTS success where the contract refuses it: the next lookup will
+            # not return "the entry of the most recent successful write" (C05)
+            if (keyed or name == "w_commit") and isinstance(exp, dict) and isinstance(obs, dict) \
+                    and not exp.get("ok") and obs.get("ok"):
+                props |= {"C05"}
         if name in ("h_drop",):
             props |= {"C14"}
         if name == "index_insert":
